@@ -652,6 +652,9 @@ def unit_numbers(doc, secnumdepth=2):
 TITLE_SFX = ["", "", "", " Intro", " a b c d", ": x/y", " (two) parts?", " what, now", " A.B",
              " Intro"]
 LABEL_PREFIX = ["s:", "s-", "s.", "sec", "L"]
+MIXED_SORT_KEYS = ["apple", "Apple", "avocado", "Avocado", "banana", "Berry", "beta", "1one", "2two", "-dash",
+                   "zeta", "Zoo"]
+COLLIDING_LABELS = ["index", "top", "front", "toc", "main", "job", "sect0001", "sect0002", "s1", "s2", "1", "2"]
 BLOCK_LABEL_PREFIX = {"figure": "fig:", "table": "tab:", "eq": "eq:", "thm": "thm-"}
 
 
@@ -659,7 +662,8 @@ INLINE_KINDS = ["w", "w", "w", "b", "em", "tt", "verb", "fn", "idx", "ref", "ref
 
 
 def doc_strategy(leaf=None, title_leaf=None, max_units=8, max_blocks=3, classes=None,
-                 with_verbatim=True, inline_kinds=None, ref_pars=False, sorted_index=False):
+                 with_verbatim=True, inline_kinds=None, ref_pars=False, sorted_index=False,
+                 mixed_index=False):
     """Strategy of documents.  `leaf()` -> strategy of fresh LEAF dicts for body
     positions, `title_leaf()` for titles (defaults: empty leaves to be filled by
     fill_benign)."""
@@ -682,6 +686,9 @@ def doc_strategy(leaf=None, title_leaf=None, max_units=8, max_blocks=3, classes=
             return {"t": t, "to": draw(st.integers(0, 30)), "leaf": draw(tag_leaf())}
         if t == "idx" and sorted_index:
             return {"t": t, "leaf": draw(leaf()), "sort": True}
+        if t == "idx" and mixed_index and draw(st.booleans()):
+            # sort keys whose initials meet in both cases, digits and symbols (index group ids)
+            return {"t": t, "leaf": draw(leaf()), "sort": draw(st.sampled_from(MIXED_SORT_KEYS))}
         return {"t": t, "leaf": draw(leaf())}
 
     @st.composite
@@ -743,6 +750,9 @@ def doc_strategy(leaf=None, title_leaf=None, max_units=8, max_blocks=3, classes=
             label = None
             if draw(st.integers(0, 2)) > 0:
                 cand = draw(st.sampled_from(LABEL_PREFIX)) + str(draw(st.integers(1, 4)))
+                if draw(st.integers(0, 5)) == 0:
+                    # a label spelled like a static or numbered file name of the template
+                    cand = draw(st.sampled_from(COLLIDING_LABELS))
                 if cand not in used:
                     used.add(cand)
                     label = cand
